@@ -42,8 +42,18 @@ func tsaVariants() []tsaVariant {
 		}
 		return tsaVariant{name, p.build().certs, trusted}
 	}
+	okV := mk("ok", nil, true)
+	// the SAME TSA leaf certificate under a CA certificate re-issued (same name, key and serial) without a key usage
+	// extension: crypto/x509 still builds the path, the timestamping chain rules refuse it - also after the leaf has
+	// been seen in a valid chain
+	reSpec := okV.chain[1].Spec
+	reSpec.KUExt, reSpec.KU = ExtAbsent, 0
+	reSpec.Serial = okV.chain[1].X.SerialNumber
+	reCA := Issue(reSpec, okV.chain[2], nil)
+	sameLeaf := tsaVariant{"same-leaf-ca-reissued-no-ku", []*Cert{okV.chain[0], reCA, okV.chain[2]}, true}
 	return []tsaVariant{
-		mk("ok", nil, true),
+		okV,
+		sameLeaf,
 		mk("untrusted-root", nil, false),
 		mk("leaf-eku-noncritical", func(p *chainPlan) { p.certs[0].spec.EKUExt = ExtNonCritical }, true),
 		mk("leaf-eku-extra-codesigning", func(p *chainPlan) { p.certs[0].spec.EKU = []string{"ts", "code"} }, true),
